@@ -144,6 +144,12 @@ func c20Case(r *rt.Run, src string, edbText []string) {
 		default:
 			side = "neither agrees with the reference"
 		}
+		if pairs := modelCollisions(ref.DB); pairs != nil && len(b) == 0 && len(d) == 0 {
+			// both evaluators write to hash-keyed simple stores: with a colliding pair in the model the survivor depends on insertion order
+			w["colliding"] = pairs
+			r.Violate("missing-facts-hash-collision", fmt.Sprintf("stores differ only by facts lost to a hash collision %v", pairs), w)
+			return
+		}
 		if len(c) > 0 && len(d) == 0 && len(a)+len(b) == 0 {
 			if pairs := hashCollisionPartners(ref.DB, c); pairs != nil {
 				w["colliding"] = pairs
